@@ -1200,8 +1200,11 @@ pub fn sched_subs_for(id: &str) -> Vec<Sub> {
                             universe_max: 4,
                             max_depth: 2,
                             allow_multi: true,
-                            tl_in_batch: false,
-                            p_tl: 1,
+                            // thread-local systems inside batches too (without access of their own:
+                            // known finding KF2 is about their access, not about panics)
+                            tl_in_batch: true,
+                            tl_in_batch_access: false,
+                            p_tl: 3,
                             p_batch: 6,
                             ..GenCfg::default()
                         },
